@@ -85,7 +85,7 @@ def recompute(h):
 PROPS = ("total", "echo", "size", "plain", "weight", "scaled")
 OPS = ["read", "kid_value", "append", "insert_dup", "del", "slice_dup", "remove_first", "child=", "child_value", "table_set",
        "table_del", "base", "sort_reverse", "assign_dup_list", "pop", "part_same", "part_update_same", "part_value", "part_new",
-       "shared_value", "config=", "config_value"]
+       "shared_value", "config=", "config_value", "del_kids", "del_child", "del_parts", "del_config"]
 
 
 def harness_factory(variant, k, first=None):
@@ -165,11 +165,13 @@ def harness_factory(variant, k, first=None):
                     if n:
                         h.kids.pop(0)
                 elif op == "part_same":
-                    h.parts["p"] = h.parts["p"]                  # the same object under its key again
+                    if "p" in h.parts:
+                        h.parts["p"] = h.parts["p"]              # the same object under its key again
                 elif op == "part_update_same":
                     h.parts.update(dict(h.parts))
                 elif op == "part_value":
-                    h.parts["p"].value += 3
+                    if "p" in h.parts:
+                        h.parts["p"].value += 3
                 elif op == "part_new":
                     h.parts["p"] = Item(value=30 + step)
                 elif op == "shared_value":
@@ -178,6 +180,8 @@ def harness_factory(variant, k, first=None):
                     h.config = Item(value=50 + step)
                 elif op == "config_value":
                     h.config.value += 1
+                elif op in ("del_kids", "del_child", "del_parts", "del_config"):
+                    delattr(h, op[4:])               # back to the default (announced once; the dependants follow)
             except symx.PathAbort:
                 raise
             except Exception as e:
